@@ -13,12 +13,12 @@ git apply "$sd/patch.diff" || { echo "PATCH DOES NOT APPLY" | tee -a "$log"; exi
 echo "== workspace tests WITH patch" >> "$log"
 cargo test --offline --workspace --no-fail-fast > "$out/.suite.txt" 2>&1; src=$?
 grep "test result" "$out/.suite.txt" | awk '{p+=$4; f+=$6} END {print "suite passed="p" failed="f}' >> "$log"; echo "suite rc=$src" >> "$log"
-cp "$sd/$demo" "$wt/$dest"
+mkdir -p "$(dirname "$wt/$dest")"; cp "$sd/$demo" "$wt/$dest"
 echo "== demo WITH patch (must fail)" >> "$log"
 timeout 900 cargo test --offline -p "$crate" --test "$tname" > "$out/.demo_with.txt" 2>&1; d1=$?
 grep "test result\|^test " "$out/.demo_with.txt" | head -20 >> "$log"; echo "demo-with rc=$d1" >> "$log"
 rm -f "$wt/$dest"; git checkout -q -- .
-cp "$sd/$demo" "$wt/$dest"
+mkdir -p "$(dirname "$wt/$dest")"; cp "$sd/$demo" "$wt/$dest"
 echo "== demo WITHOUT patch (must pass)" >> "$log"
 timeout 900 cargo test --offline -p "$crate" --test "$tname" > "$out/.demo_without.txt" 2>&1; d2=$?
 grep "test result\|^test " "$out/.demo_without.txt" | head -20 >> "$log"; echo "demo-without rc=$d2" >> "$log"
